@@ -49,9 +49,7 @@ impl Serialize for KerningInnerSerializer<'_> {
         let mut map = serializer.serialize_map(Some(self.inner_kerning.len()))?;
         for (k, v) in self.inner_kerning {
             let rounded = v.round();
-            if (v - rounded).abs() < f64::EPSILON
-                && (i32::MIN as f64..=i32::MAX as f64).contains(&rounded)
-            {
+            if *v == rounded && (i32::MIN as f64..=i32::MAX as f64).contains(&rounded) {
                 map.serialize_entry(k, &(rounded as i32))?;
             } else {
                 map.serialize_entry(k, v)?;
